@@ -875,3 +875,44 @@ Lemma ex_queue_facts :
     t_pop_until ex_ff q 7 = Ok (None, mk_cq [] [1; 0; 2; 3], [3; 2; 1; 0]) /\
     t_remove_ancestors ex_ff (mk_cq [3; 2; 1] [1; 2; 3]) [2] = Ok (mk_cq [3] [1; 2; 3]).
 Proof. eexists. split; [vm_compute; reflexivity|]. vm_compute. repeat split; reflexivity. Qed.
+
+(* ====================================================================== *)
+(** * the merge command's base selection = one all-at-once search; a pairwise fold is not *)
+
+(* criss-cross: independent roots Y = 0 (older) and X = 1 (newer); C1 = 2 = merge(X, Y),
+   C2 = 3 = merge(Y, X); C3 = 4 = child of Y only *)
+Definition wit_cc : graph :=
+  [(0, (100%Z, [])); (1, (200%Z, [])); (2, (300%Z, [1; 0])); (3, (310%Z, [0; 1])); (4, (400%Z, [0]))].
+
+Lemma fold_witness :
+  closed wit_cc /\ acyclic wit_cc /\ complete wit_cc [2; 3; 4] /\
+  common_ancestor wit_cc [2; 3; 4] 0 /\
+  t_merge_base wit_cc [2; 3; 4] = SFound 0 /\ t_seek_fold wit_cc [2; 3; 4] = SNotFound /\
+  base_input wit_cc [2; 3; 0] 2 0 /\
+  t_merge_base wit_cc [2; 3; 0] = SFound 0 /\ t_seek_fold wit_cc [2; 3; 0] = SNotFound.
+Proof.
+  assert (Hc : closed wit_cc) by (apply closedb_closed; vm_compute; reflexivity).
+  split; [exact Hc|]. split; [apply acyclicb_acyclic; vm_compute; reflexivity|].
+  split; [|split; [|split; [vm_compute; reflexivity|split; [vm_compute; reflexivity|split;
+    [|split; vm_compute; reflexivity]]]]].
+  - apply closed_complete; [exact Hc|]. intros r [<-|[<-|[<-|[]]]]; vm_compute; discriminate.
+  - apply common_ancestorb_spec. vm_compute. reflexivity.
+  - split; [reflexivity|]. intros j d Hj Hne. destruct j as [|[|[|j]]]; simpl in Hj.
+    + inversion Hj; subst. apply reachb_spec. vm_compute. reflexivity.
+    + inversion Hj; subst. apply reachb_spec. vm_compute. reflexivity.
+    + now elim Hne.
+    + destruct j; discriminate.
+Qed.
+
+Lemma fold_not_all_at_once_refuted :
+  ~ (forall g cs, closed g -> acyclic g -> complete g cs -> t_seek_fold g cs = t_merge_base g cs).
+Proof.
+  intros H. destruct fold_witness as [Hc [Ha [Hp [_ [Hm [Hf _]]]]]].
+  specialize (H _ _ Hc Ha Hp). rewrite Hm, Hf in H. discriminate.
+Qed.
+
+Lemma fold2_same : forall g ins srt a b,
+  seek_fold g ins srt [a; b] = seek_common_ancestor g ins srt [a; b].
+Proof.
+  intros. unfold seek_fold. simpl. destruct (seek_common_ancestor g ins srt [a; b]); reflexivity.
+Qed.
